@@ -593,20 +593,49 @@ func runC09R2(c *eng.Ctx, r *eng.RuleCtx) {
 				return isS && s.Sel.Name == "Type" && eng.SelObj(info, y) == o
 			}
 		}
-		includeCond := func(e *eng.GEdge) bool {
-			// the true edge of the condition that mentions IncludeSnapshots / IncludeAllSnapshots
-			if e.Cond == nil || !e.Taken {
-				return false
-			}
-			m := false
-			ast.Inspect(e.Cond, func(n ast.Node) bool {
-				if s, ok := n.(*ast.SelectorExpr); ok && (s.Sel.Name == "IncludeSnapshots" || s.Sel.Name == "IncludeAllSnapshots") {
-					m = true
-				}
-				return true
-			})
-			return m
+		// the include condition as atoms: `len(X.IncludeSnapshots) > 0` (any spelling) and `X.IncludeAllSnapshots`; the
+		// rules assume values for them and let the graph evaluate every condition, flag and named condition
+		selNamed := func(e ast.Expr, name string) bool {
+			sx, ok := ast.Unparen(e).(*ast.SelectorExpr)
+			return ok && sx.Sel.Name == name
 		}
+		// includeAtom: (which atom, does the fact state that it holds)
+		includeAtom := func(fc eng.Fact) (string, bool) {
+			if fc.Y != nil {
+				return "", false
+			}
+			if selNamed(fc.X, "IncludeAllSnapshots") {
+				return "all", fc.Pos
+			}
+			if b, ok := ast.Unparen(fc.X).(*ast.BinaryExpr); ok {
+				if cl := builtinCall(info, b.X, "len"); cl != nil && len(cl.Args) == 1 && selNamed(cl.Args[0], "IncludeSnapshots") {
+					if k, isK := eng.ConstInt(info, b.Y); isK {
+						nonEmpty, known := false, true
+						switch {
+						case b.Op == token.GTR && k == 0, b.Op == token.NEQ && k == 0, b.Op == token.GEQ && k == 1:
+							nonEmpty = fc.Pos
+						case b.Op == token.EQL && k == 0, b.Op == token.LEQ && k == 0, b.Op == token.LSS && k == 1:
+							nonEmpty = !fc.Pos
+						default:
+							known = false
+						}
+						if known {
+							return "some", nonEmpty
+						}
+					}
+				}
+			}
+			return "", false
+		}
+		assumeInclude := func(want map[string]bool) func(eng.Fact) bool {
+			return func(fc eng.Fact) bool {
+				k, holds := includeAtom(fc)
+				w, has := want[k]
+				return k != "" && has && w == holds
+			}
+		}
+		notIncluded := assumeInclude(map[string]bool{"all": false, "some": false})
+		reachNotIncluded := g.Reach(eng.Query{FromEntry: true, Assume: notIncluded, AvoidEdge: g.Infeasible(notIncluded)})
 		nObjects, nObject, nSnap := 0, 0, 0
 		for _, st := range stores {
 			switch st.Key {
@@ -618,7 +647,7 @@ func runC09R2(c *eng.Ctx, r *eng.RuleCtx) {
 				r.Check(g.OnlyVia(st.Node, nil, g.FactEdge(typeEq("TypeEvent"))), fmt.Sprintf("%s key %s#%d", f.Key, st.Key, nObject), st.Node.Node.Pos(), "only for Event", "`"+st.Key+"` can be rendered for a context that is not an Event")
 			case snap:
 				nSnap++
-				r.Check(g.OnlyVia(st.Node, nil, includeCond), fmt.Sprintf("%s key snapshots#%d", f.Key, nSnap), st.Node.Node.Pos(), "only when the binding includes snapshots", "`snapshots` can be rendered although the binding includes no snapshots")
+				r.Check(!reachNotIncluded[st.Node], fmt.Sprintf("%s key snapshots#%d", f.Key, nSnap), st.Node.Node.Pos(), "only when the binding includes snapshots", "`snapshots` can be rendered although the binding includes no snapshots")
 			}
 		}
 		// snapshots present whenever included (for every return except OnStartup)
@@ -626,27 +655,21 @@ func runC09R2(c *eng.Ctx, r *eng.RuleCtx) {
 			if used[rk.Node] == "OnStartup" {
 				continue
 			}
-			reach := g.Reach(eng.Query{FromEntry: true, AvoidEdge: func(e *eng.GEdge) bool {
-				// force the include condition to be true: avoid its false edge
-				if e.Cond == nil || e.Taken {
-					return false
-				}
-				m := false
-				ast.Inspect(e.Cond, func(n ast.Node) bool {
-					if s, ok := n.(*ast.SelectorExpr); ok && (s.Sel.Name == "IncludeSnapshots" || s.Sel.Name == "IncludeAllSnapshots") {
-						m = true
-					}
-					return true
-				})
-				return m
-			}, AvoidNode: func(n *eng.GNode) bool {
+			isSnapStore := func(n *eng.GNode) bool {
 				for _, st := range stores {
 					if st.Key == snap && st.Node == n {
 						return true
 					}
 				}
 				return false
-			}})
+			}
+			reach := map[*eng.GNode]bool{}
+			for _, w := range []map[string]bool{{"all": true}, {"some": true}} {
+				a := assumeInclude(w)
+				for n := range g.Reach(eng.Query{FromEntry: true, Assume: a, AvoidEdge: g.Infeasible(a), AvoidNode: isSnapStore}) {
+					reach[n] = true
+				}
+			}
 			if reach[rk.Node] {
 				r.Bad(f.Key+" snapshots-when-included "+used[rk.Node], rk.Node.Node.Pos(), "a binding that includes snapshots can be rendered without the `snapshots` key")
 			}
